@@ -246,7 +246,7 @@ func checkC16(c *km.Ctx) {
 	}
 	prUnsealed := s.PrimUnsealed()
 	for _, fn := range fns {
-		if fn.Pkg.Pkg.Path() != KMD {
+		if !pkgIsKMD(fn.Pkg) {
 			continue
 		}
 		name := km.NameOf(fn)
@@ -326,7 +326,7 @@ func checkC16(c *km.Ctx) {
 	load, save := RS+"LoadUserProfile", RS+"SaveUserProfile"
 	var sites []string
 	for _, fn := range fns {
-		if fn.Pkg.Pkg.Path() != KMD {
+		if !pkgIsKMD(fn.Pkg) {
 			continue
 		}
 		var loads []*ssa.Call
